@@ -21,6 +21,15 @@ Theorem c13_monitor_accepts_model : forall g ops, init_wf g = true ->
 Proof. exact monitor_accepts_model_l. Qed.
 Print Assumptions c13_monitor_accepts_model.
 
+(* the monitor the check runs adds one clause about the address book's own
+   per-peer cap (addr_book.go's maxAddrsPerPeer); the model is the book whose cap
+   does not bind, so that clause is proved only for configurations with the cap
+   disabled and is otherwise judged on the implementation's traces alone *)
+Theorem c13_monitor_with_book_cap_accepts_model_partial : forall g ops, init_wf g = true -> g_pcap g = 0 ->
+  mon_run_all g (mon_init g) 0 (model_trace g (init_sys g) ops) = [].
+Proof. intros g ops Hw Hp. rewrite mon_run_all_nocap by exact Hp. now apply monitor_accepts_model_l. Qed.
+Print Assumptions c13_monitor_with_book_cap_accepts_model_partial.
+
 (* the same for the race cases (real goroutines, judged on the final peerstore
    contents against the linearised operations): the final-state check accepts
    the model's final state after every history *)
@@ -239,4 +248,13 @@ Proof. vm_compute. reflexivity. Qed.
 Example monitor_rejects_open_wait :
   mon_step ex_g (mkMon [] [] [no_dump; no_dump]) (OTimeout 6000000000)
            (mkWO 0 [] [] [true; false] [no_dump; no_dump]) = [11].
+Proof. vm_compute. reflexivity. Qed.
+(* ... a record signed by another peer handed on in the Completed event *)
+Example monitor_rejects_rejected_record_in_event :
+  mon_step ex_g ex_before (OPush 1 [ex_chunk 2]) (mkWO 0 [] [(1, 1); (4, 1); (5, 1)] [] [ex_d []; ex_d []]) = [12].
+Proof. vm_compute. reflexivity. Qed.
+(* ... and more addresses than the book's cap kept while not connected *)
+Example monitor_rejects_over_book_cap :
+  mon_step_all ex_g (mkMon [] [] [no_dump; no_dump]) (OPush 1 [ex_chunk 1])
+    (mkWO 0 [] [] [] [ex_d (map (fun a => (a, RecentlyConnectedAddrTTL)) (zrange 1 65)); no_dump]) = [13].
 Proof. vm_compute. reflexivity. Qed.
